@@ -82,9 +82,17 @@ def check(run):
         fails, runs = boundary_sweep(run, shapes)
         run.bounded.append({"what": "native sensor_model with the innovation scaled so that NIS sits at 0.25x, (1 -/+ 1e-6)x and 4x the decision boundary; thresholds 3.0, 0.5 and disabled; decision and untouched estimate checked against exact rational NIS", "bound": f"{runs} runs over {len(shapes)} shapes", "failures": fails, "counted_as_proved": False})
 
+    from checks.ekf_common import stateful_sweep
+
+    stateful_sweep(run, "C06", ('update',), run.tier == "thorough" or any(r.status != "ok" for r in run.reports) or bool(run.undecided) or bool(run.findings))
+
 
 def replay_file(payload):
     inp = payload["inputs"]
+    if inp.get("sequence"):
+        from checks.ekf_common import replay_sequence
+
+        return replay_sequence(inp)
     if inp.get("extra_scenario"):
         p1, _ = battery()
         p2, _ = discard_scenario()
